@@ -1,9 +1,10 @@
 import AlphaG.Model.Cluster
+import AlphaG.Model.Vertexing
 import Std.Data.HashMap
 /-
 Line-protocol handler for the C15/C14 combinatorial replay.
 
-`cluster <min> <n> <bins> <near> <classes>`
+`cluster <min> <n> <bins> <near> <classes> [<points> <params>]`
   * `<bins>`    : `n` groups separated by `;`, each a `,`-separated list of bin codes
                   (`theta * 2^32 + rho`, decimal; `-` for a point without bins), in the order
                   returned by `get_bins`;
@@ -11,6 +12,8 @@ Line-protocol handler for the C15/C14 combinatorial replay.
                   `point_i.distance(point_j) <= max_distance`), or `p:` followed by
                   `,`-separated `i-j` ordered pairs (`-` = none);
   * `<classes>` : `n` `,`-separated numbers, `cls[i]` = smallest `j` with `sp[j] == sp[i]`.
+  * `<points> <params>` (optional, ignored by the model): bit patterns of the points and the
+    clustering parameters, so that `corr replay` can re-run the implementation from the line.
 Answer: `ok c=<cluster>|<cluster>… r=<remainder>`; points are printed as class
 representatives `cls[i]`, lists `,`-separated, `-` when empty.
 
@@ -90,9 +93,69 @@ def handleCluster (minS nS binsS nearS clsS : String) : String :=
     | _, _, _ => "bad-request"
   | _, _ => "bad-request"
 
+/-! ### `vertexsel <n> <keep> <z> <r> <classes> [<tracks>]`
+
+Replay of the `find_vertices` bookkeeping on quantities computed from the real tracks by the
+harness: `<keep>` is a string of `n` digits `0/1` (both seed filters), `<z>` and `<r>` are
+`n` `,`-separated `f64` bit patterns (z of the closest approach to the beamline, helix
+radius), `<classes>` as for `cluster`. `Float` `+ - abs <` are bit-identical to `f64`.
+The harness only sends track lists whose kept tracks have pairwise distinct `z` unless they
+are `==` (for those the result of `sort_unstable_by` is determined), so a stable insertion
+sort reproduces it. `<tracks>` (helix parameter bit patterns) is ignored by the model; it
+lets `corr replay` re-run the implementation. Answer: `ok p=<primary tracks|none> r=<remainder>`. -/
+
+def parseFloatBits (s : String) : Option Float :=
+  (parseHexNat s).map (fun n => Float.ofBits n.toUInt64)
+
+def insertSorted (z : Nat → Float) (t : Nat) : List Nat → List Nat
+  | [] => [t]
+  | a :: l => if z t < z a then t :: a :: l else a :: insertSorted z t l
+
+def fcmp (a b : Float) : Option Ordering :=
+  if a < b then some .lt else if a > b then some .gt else if a == b then some .eq else none
+
+def handleVertexSel (nS keepS zS rS clsS : String) : String :=
+  match nS.toNat? with
+  | none => "bad-request"
+  | some n =>
+    let zs := if n = 0 then some [] else (zS.splitOn ",").mapM parseFloatBits
+    let rs := if n = 0 then some [] else (rS.splitOn ",").mapM parseFloatBits
+    match zs, rs, parseNatList clsS with
+    | some zs, some rs, some cls =>
+      let keep := (if keepS == "-" then [] else keepS.toList.map (· == '1')).toArray
+      if zs.length ≠ n ∨ rs.length ≠ n ∨ cls.length ≠ n ∨ keep.size ≠ n then "bad-request" else
+      let zA := zs.toArray
+      let rA := rs.toArray
+      let clsA := cls.toArray
+      let z := fun i => zA.getD i 0.0
+      let sumR := fun (c : List Nat) => c.foldl (fun acc i => acc + rA.getD i 0.0) 0.0
+      let ctx : AlphaG.Vertexing.Ctx := {
+        eq := fun i j => clsA.getD i i == clsA.getD j j
+        keep := fun i => keep.getD i false
+        sort := fun l =>
+          if 2 ≤ l.length ∧ l.any (fun i => (z i).isNaN) then none
+          else some (l.foldl (fun acc t => insertSorted z t acc) [])
+        close := fun t l => Float.abs (z t - z l) < 0.034
+        cmp := fun a b => fcmp (sumR a) (sumR b) }
+      match AlphaG.Vertexing.findVertices ctx (List.range n) with
+      | .ok r =>
+        let rep := fun i => clsA.getD i i
+        let p := match r.primary with
+          | none => "none"
+          | some v => showList (v.map rep)
+        s!"ok p={p} r={showList (r.remainder.map rep)}"
+      | .err _ => "err -"
+      | .panic s => s!"panic {s}"
+    | _, _, _ => "bad-request"
+
 def handle (cmd : String) (args : List String) : Option String :=
   match cmd, args with
   | "cluster", [minS, nS, binsS, nearS, clsS] => some (handleCluster minS nS binsS nearS clsS)
+  -- two trailing arguments (point bit patterns, parameters) are for the implementation replay only
+  | "cluster", [minS, nS, binsS, nearS, clsS, _, _] =>
+    some (handleCluster minS nS binsS nearS clsS)
+  | "vertexsel", [nS, keepS, zS, rS, clsS] => some (handleVertexSel nS keepS zS rS clsS)
+  | "vertexsel", [nS, keepS, zS, rS, clsS, _] => some (handleVertexSel nS keepS zS rS clsS)
   -- implementation-only requests (`find_vertices`, track fits: the minimiser is not modelled):
   -- echo the recorded answer that follows `=>`, so that they never count as disagreements.
   | "impl-only", rest =>
